@@ -180,6 +180,8 @@ func checkC04(c *Ctx) {
 		c.Check(len(sites) == 0 && nScanned > 300, "R4.7", "logging path", "synchronous", token.NoPos, "%d functions scanned: no go statement or channel send anywhere in zap's non-test library code except the flush loop start (%v); a log call therefore completes its sink write before it returns", nScanned, sites)
 		c.Check(sawAllowed, "R4.7", "BufferedWriteSyncer initialiser", "canary-go-statement", token.NoPos, "the scanner does see the one known go statement (BufferedWriteSyncer.initialize)")
 	}
+	c.Rule("R4.16", "CheckedEntry.Write hands the entry to every core that accepted it in Check - each one, in every round of its loop, whatever the core would answer now (a tee branch whose level was raised in between still gets the entry it accepted)", 3)
+	c.As(map[string]string{"R6.3": "R4.16"}, func() { c6Write(c) })
 	c.Rule("R4.15", "an observer branch hands out a copy of its entries, or its array after giving it up: entries a tee delivers later never overwrite the ones already taken", 2)
 	c8ObserverHandsOutOwnStorage(c, "R4.15")
 	// R4.8, R4.14
